@@ -632,7 +632,16 @@ def check_c15(rec, names, symbols, seed):
         calls.append(sym.name)
         return f'# <<{sym.name}>>\n_value_ = 0\n{sym.code}\n# end'
 
+    def constant(sym):
+        calls.append(sym.name)
+        return '_same_text_for_every_symbol_ = 1'
+
     want_calls = [s.name for s in symbols if s.type in (Type.ENDOGENOUS, Type.VERBATIM) and s.equation is not None and s.code is not None]
+    calls.clear()
+    text = fsic.build_model_definition(symbols, converter=constant)
+    n += 1
+    if text.count('_same_text_for_every_symbol_ = 1') != len(want_calls):
+        raise Mis('c15-converter-output-not-inserted-once-per-symbol', got=text.count('_same_text_for_every_symbol_ = 1'), want=len(want_calls))
     for conv in (identity, wrapping):
         calls.clear()
         text = fsic.build_model_definition(symbols, converter=conv)
